@@ -1,6 +1,7 @@
 package ref
 
 import (
+	"sync"
 	"fmt"
 	"sort"
 	"strings"
@@ -196,14 +197,34 @@ func brace(k string) bool { return k == "{" || k == "}" || k == "{{" || k == "}}
 // NeedsSeparator reports whether two adjacent tokens must be separated by at least one character of
 // layout to be scanned as written.
 func NeedsSeparator(a, b Tok) bool {
-	if wordLike(a.Kind) && wordLike(b.Kind) {
-		return true
-	}
 	if brace(a.Kind) && brace(b.Kind) {
 		return true
 	}
-	return false
+	if !(wordLike(a.Kind) && wordLike(b.Kind)) {
+		return false
+	}
+	// two word-like tokens: the documented scanner decides (longest run): "@left" directly followed by "PLUS" is still
+	// two tokens, "x" directly followed by "y" is not
+	key := a.Src + "\x00" + b.Src
+	glueMu.Lock()
+	defer glueMu.Unlock()
+	if v, ok := glueMemo[key]; ok {
+		return v
+	}
+	if glueScanner == nil {
+		glueScanner = NewScanner()
+	}
+	toks, lexErr, single := glueScanner.Scan(a.Src + b.Src)
+	need := lexErr != nil || single || len(toks) != 2 || toks[0].Kind != a.Kind || toks[0].Lexeme != a.Lexeme || toks[1].Kind != b.Kind || toks[1].Lexeme != b.Lexeme
+	glueMemo[key] = need
+	return need
 }
+
+var (
+	glueMu      sync.Mutex
+	glueMemo    = map[string]bool{}
+	glueScanner *Scanner
+)
 
 // Render lays the tokens out with the given separators (len(seps) == len(toks)+1: before the first token,
 // between tokens, after the last) and fills in the offset (in characters), line and column of every token.
